@@ -53,7 +53,7 @@ func (w *vpWorld) project(r *vpResp) map[string]interface{} {
 	return out
 }
 
-var vpFwdValues = map[string]string{"whitelisted": "good.example.com", "foreign": "evil.com", "https": "https", "http": "http",
+var vpFwdValues = map[string]string{"whitelisted": "sub.good.example.com", "foreign": "evil.com", "https": "https", "http": "http",
 	"skipauth": "/open/y", "proxyprefixed": "/oauth2/sign_in", "trusted": "198.51.100.7", "untrusted": "203.0.113.77"}
 
 func init() {
@@ -62,7 +62,7 @@ func init() {
 		vpRunGroups(keys, groups, env.seed, func(rng *mrand.Rand, key string, cs []*vpCase) {
 			in0 := cs[0].In
 			cfg := &vpCfg{TrustedIPs: []string{"198.51.100.0/24"}, SkipAuthRoutes: []string{"^/open"}, Whitelist: []string{".example.com"},
-				CookieDomains: []string{".example.com", ".good.example.com"}}
+				CookieDomains: []string{".example.com", ".good.example.com", ".corp.test"}}
 			switch vpS(in0, "cfg") {
 			case "spb":
 				cfg.SkipProviderButton = true
@@ -109,6 +109,9 @@ func init() {
 					cookie = sessJar.header()
 				}
 				base := vpReq{Target: targets[vpS(in, "endpoint")], Cookie: cookie, RemoteAddr: "203.0.113.5:41000"}
+				if vpS(in, "host") == "off" {
+					base.Host = "10.9.8.7:4180"
+				}
 				with := base
 				hm := vpM(in, "hdr")
 				var names []string
